@@ -311,7 +311,7 @@ func chunkCmd(sc *cScenario, tw *TraceWriter) {
 	chunks, leftover := proj.SplitChunks(wire, 128)
 	k, got := 0, 0
 	for _, c := range chunks {
-		var m *cMsg
+		m := &cMsg{Subs: []cSub{}} // a chunk beyond the messages the reader made out: no message to attribute it to
 		dataOk := false
 		if k < len(cms) {
 			m = cms[k]
